@@ -166,3 +166,19 @@ func naturalCmp(a, b string) int {
 }
 
 func isDigit(c byte) bool { return c >= '0' && c <= '9' }
+
+// refParseLoose is refParse for files that may end with an unterminated entry (e.g. a file truncated by a crash):
+// the complete entries are returned, the dangling tail is ignored.
+func refParseLoose(data string) []Entry {
+	es, err := refParse(data)
+	if err == nil {
+		return es
+	}
+	// cut the file after the last terminator line and parse that prefix
+	idx := strings.LastIndex(data, "\n---\n")
+	if idx < 0 {
+		return nil
+	}
+	es, _ = refParse(data[:idx+len("\n---\n")])
+	return es
+}
